@@ -28,6 +28,26 @@ def seeded_table():
     for r in rows:
         note = f" — {r[6]}" if r[6] else ""
         out.append(f"| {r[0]} | {r[1]} | {r[2]} | {r[3]} | {r[4]}{note} | {r[5]} |")
+    # per round
+    def round_of(name):
+        import re
+        m = re.search(r"-r(\d)m", name)
+        return int(m.group(1)) if m else 1
+    briefs = {1: "two changes each, free choice", 2: "three each: interactions, fault paths, sequences/boundaries", 3: "two each: told which kinds were already tried", 4: "two each: enumerate the clauses, break the two least likely to be exercised, from outside the feature's main function", 5: "three each, the unsteered brief of round 1", 6: "three each, unsteered again"}
+    per = {}
+    for r in rows:
+        k = round_of(r[0])
+        d = per.setdefault(k, [0, 0, 0, 0])
+        d[0] += 1
+        d[1] += r[4] == "caught"
+        d[2] += r[4] == "caught after strengthening"
+        d[3] += r[4].startswith("not caught")
+    out.append("")
+    out.append("| round | brief to the sub-agents | changes | caught on arrival | caught after strengthening | not caught |")
+    out.append("|---|---|---|---|---|---|")
+    for k in sorted(per):
+        d = per[k]
+        out.append(f"| {k} | {briefs.get(k, '')} | {d[0]} | {d[1]} | {d[2]} | {d[3]} |")
     n = len(rows)
     first = sum(1 for r in rows if r[4] == "caught")
     later = sum(1 for r in rows if r[4] == "caught after strengthening")
